@@ -358,6 +358,21 @@ def gen_filters(rng, names, sample_items):
     return out
 
 
+COMMENT_BODIES = [" skipped 1,2,3", "1,2", "", " x", " dose changed \there", "\t note", " \t", "ID \tTIME\tDV", " + - .", ' "quoted, text"',
+                  " '", " 123456789012345678901234567890", ",,,", " , \t ,", "\t\t", "   ", " caf\u00e9 \u00b5g/L", " 2-1-3 1e -5D1", " a  \t b",
+                  "=(x)", " ; semicolon"]
+
+
+def gen_comment_line(rng, ic):
+    """a line the chosen IGNORE character removes; its text is free (blanks before TABs, separators only, over-long
+    items, quotes, non-ASCII, nothing at all)"""
+    body = rng.choice(COMMENT_BODIES)
+    if ic == "@":
+        lead = rng.choice(["", "", " ", "\t", "  ", "\t "])
+        return lead + rng.choice(["#", "@", "A", "Z", "c", "ID", "x"]) + body
+    return ic + body
+
+
 def gen_read_case(rng: random.Random):
     ic = wchoice(rng, [("#", 45), ("@", 30), ("C", 8), ("I", 5), ("*", 5), ("!", 4), ("^", 1), ("\\", 1), ("]", 1)])
     n = rng.randint(1, 6)
@@ -427,10 +442,9 @@ def gen_read_case(rng: random.Random):
             extra.append((0, rng.choice(["", " ", "\t"]) + hdr))
         else:
             extra.append((0, ic + hdr))
-    if rng.random() < 0.2:
-        pos = rng.randint(0, len(lines))
-        c = ic if ic != "@" else rng.choice(["#", "A comment", " text", "@x"])
-        extra.append((pos, c + rng.choice([" skipped 1,2,3", "1,2", "", " x"])))
+    if rng.random() < 0.3:
+        for _ in range(rng.choice([1, 1, 2, 3])):
+            extra.append((rng.randint(0, len(lines)), gen_comment_line(rng, ic)))
     if rng.random() < 0.06:
         extra.append((rng.randint(0, len(lines)), "#" + "1,2"))
     if rng.random() < 0.07:
@@ -442,8 +456,8 @@ def gen_read_case(rng: random.Random):
     text = "\n".join(lines)
     if rng.random() < 0.85:
         text += "\n"
-    elif rng.random() < 0.15:
-        text += "\n" + (ic if ic != "@" else "#") + "end"
+    elif rng.random() < 0.25:
+        text += "\n" + gen_comment_line(rng, ic)
     if rng.random() < 0.03:
         text += "\n"
     mode = wchoice(rng, [(0, 58), (1, 32), (2, 10)])
@@ -572,8 +586,8 @@ def gen_model_case(rng: random.Random):
         lines.insert(0, hdr)
     elif rng.random() < 0.6:
         lines.insert(0, (ic or "#") + hdr)
-    if rng.random() < 0.1:
-        lines.insert(rng.randint(0, len(lines)), (ic if ic and ic != "@" else "#") + " note")
+    if rng.random() < 0.2:
+        lines.insert(rng.randint(0, len(lines)), gen_comment_line(rng, ic or "#"))
     text = "\n".join(lines) + ("\n" if rng.random() < 0.9 else "")
     # conditions
     filters = []
@@ -719,6 +733,10 @@ def corpus_cases():
         _rc("^c\n1,2\n\\x\n", ["A", "B"], ic="^"),
         _rc("\\c\n1,2\n", ["A", "B"], ic="\\"),
         _rc("1,2\n  ", ["A", "B"]),
+        # the text of a comment line is free: blank before TAB, separators only, over-long, unterminated
+        _rc("# dose changed \there\n1,2\n# , \t ,\n3,4\n#\t\t", ["A", "B"]),
+        _rc("ID \tTIME\n1,2\n \tx y\n3,4\n", ["ID", "TIME"], ic="@"),
+        _rc("C 123456789012345678901234567890 \t.\n1,2\n", ["A", "B"], ic="C"),
         # missing-data token in ID
         _rc("-99,1\n1,3\n", ["ID", "B"]),
         _rc("-99,1\n1,3\n-99,2\n", ["ID", "B"]),
@@ -1417,6 +1435,25 @@ def run_case(case, drv):
 
     # ---- Mon: reference reader
     judge_with_reference(case, real, tags, mon, "read-differs-from-reference")
+
+    # ---- Mon: the text of a comment line is free — replacing it by something else must not change the outcome
+    ic = case["ic"]
+    ncomm = [i for i, l in enumerate(segs) if is_comment(ic, l)]
+    if ncomm:
+        tags.append("comment-lines")
+        if any(" \t" in segs[i] for i in ncomm):
+            tags.append("comment-with-space-tab")
+        plain = "Ax" if ic == "@" else ic + "x"
+        c2 = dict(case)
+        c2["text"] = "\n".join(plain if i in ncomm else l for i, l in enumerate(segs))
+        real2 = real_read(c2)
+        same = real2[:2] == real[:2] if real[0] == "err" or real2[0] == "err" else (
+            real2[1] == real[1] and len(real2[2]) == len(real[2]) and
+            all(len(a) == len(b) and all(cells_equal(x, y) for x, y in zip(a, b)) for a, b in zip(real2[2], real[2])))
+        if not same:
+            mon.append({"cls": "comment-text-changes-result",
+                        "what": f"reading gives {real[:3] if real[0] == 'err' else 'a table'}; with the text of the comment lines "
+                                f"{[segs[i] for i in ncomm]} replaced by {plain!r} it gives {real2[:3] if real2[0] == 'err' else 'a table'}"})
 
     nontrivial = (real[0] == "ok" and len(real[2]) >= 2 and len(case["names"]) >= 2) or \
         (real[0] == "err" and real[1].startswith("DatasetError") and len(data_lines) >= 2)
